@@ -463,7 +463,9 @@ class Interp(OpsMixin, BuiltinsMixin):
                 except BreakSig:
                     return
                 except ContinueSig:
-                    continue
+                    pass
+                if spec is not None and callable(spec.ghost_step):
+                    spec.ghost_step(self, env, n - 1)
         self.invariant_loop(st, env, spec, key, cond=lambda: self.truth(self.eval(st.test, env)))
 
     def loop_key(self):
@@ -564,9 +566,11 @@ class Interp(OpsMixin, BuiltinsMixin):
                 raise Unsupported(f"for-loop {key} over a symbolic iterable needs an invariant")
             self.symbolic_for(st, env, it, spec, key)
             return
-        self.loop_key()
+        key = self.loop_key()
+        spec = self.c.loops.get(key)
+        cut = spec.ghost_step if spec is not None and callable(spec.ghost_step) else None
         broke = False
-        for x in items:
+        for k, x in enumerate(items):
             self.assign(st.target, x, env)
             try:
                 self.exec_body(st.body, env)
@@ -574,7 +578,10 @@ class Interp(OpsMixin, BuiltinsMixin):
                 broke = True
                 break
             except ContinueSig:
-                continue
+                pass
+            if cut is not None:
+                # ghost lock-step: compare with the reference step, then continue from fresh symbols (cut point)
+                cut(self, env, k)
         if not broke:
             self.exec_body(st.orelse, env)
 
